@@ -3,8 +3,8 @@
 Proof: Props/C12.lean over Model/Report.lean (json.dumps string escaping / json.loads scanstring round trip,
 HTML script-data end rule, embedding, merchant ids, str.replace chain, category-view sums, figures).
 Tie: correspondence streams (json.dumps, json.loads, html.parser, make_merchant_id observed through the real
-write_summary_file_vue, the embed + placeholder pipeline observed on small synthetic templates, build_category_view,
-export_json's summary) against the compiled Lean model.
+write_summary_file_vue, the whole id allocation table observed on adversarial merchant-name families, the embed + placeholder
+pipeline observed on small synthetic templates, build_category_view, export_json's summary) against the compiled Lean model.
 Oracle on the implementation alone: every format x verbosity renders; the figures parsed back from every format
 agree with the analysis; the HTML decodes (html.parser, then json) to exactly what was analysed.
 """
@@ -46,6 +46,91 @@ CATS = [('Food', 'Grocery'), ('Food', 'Restaurant'), ('Income', 'Salary'), ('Tra
 CURRENCIES = ['${amount}', '{amount} zł', '€{amount}', '{amount}']
 VIEWS = ('[Every Month]\ndescription: seen "often" </script> /* JS_PLACEHOLDER */\nfilter: months >= 2\n\n'
          '[Large]\nfilter: total > 100\n\n[All <b> ünï]\ndescription: é😀\nfilter: total > -100000000\n')
+
+
+# merchant-name families for the id allocation: the property quantifies over ALL sets of merchant names, so the ids must be
+# injective on every one of them — in particular on names whose natural id (quotes dropped, space → '_') equals an id
+# that the allocator GENERATES for another name (`<base>_<n>`), and on chains of those
+ID_BASES = ['Joes', 'A', 'Cafe X', 'x_y', 'Shop 2', "O'Neil", '7', 'é😀', 'a<b']
+
+
+def id_op(r, s):
+    """one step of the closure: a name related to `s` through the id normalisation or through `_n` suffixing"""
+    k = r.random()
+    if k < 0.3:                      # a quote somewhere: same natural id as s
+        p = r.randint(0, len(s))
+        return s[:p] + r.choice(["'", '"']) + s[p:]
+    if k < 0.45:                     # space <-> underscore at one place: same natural id as s
+        idx = [i for i, c in enumerate(s) if c in ' _']
+        if idx:
+            i = r.choice(idx)
+            return s[:i] + ('_' if s[i] == ' ' else ' ') + s[i + 1:]
+        return s + "'"
+    if k < 0.9:                      # natural id = the id generated for the n-th name with the natural id of s
+        return s + r.choice(['_', ' ']) + str(r.choice([2, 2, 2, 3, 3, 4, 10]))
+    return s + r.choice(['_1', '_02', '_', ' ', '_2_', '2', '_2 '])     # near misses
+
+
+def id_family(r, size, base=None):
+    """`size` names from the closure of one base name under `id_op`, in random order"""
+    if base is None:
+        base = r.choice(ID_BASES) if r.random() < 0.8 else adv_string(r, False, 2)
+    names, tries = [base], 0
+    while len(names) < size and tries < 60:
+        tries += 1
+        n = id_op(r, r.choice(names))
+        if n not in names:
+            names.append(n)
+    r.shuffle(names)
+    return names
+
+
+def id_universe(b):
+    """a fixed small part of that closure, for exhaustive enumeration of ordered subsets"""
+    return [b, b + "'", b + ' 2', b + '_2', '"' + b, b + "' 2", b + '_2_2', b + ' 3', b + ' 2 2', b + '_2_3']
+
+
+def id_case(r, names, views=False):
+    """every name occurs, first appearances in the given order; two categories so that category sums are not trivial"""
+    cats = [('Food', 'Grocery'), ('Food', 'Restaurant'), ('Bills', '')]
+    txns = []
+    for i, n in enumerate(names):
+        c = r.choice(cats)
+        txns.append(T(n, r.randint(1, 8000) / 4.0 * r.choice([1, 1, 1, -1]), desc='%s #%d' % (n, i), cat=c[0], sub=c[1],
+                      date='2025-%02d-%02d' % (r.randint(1, 12), r.randint(1, 28))))
+    for _ in range(r.randint(0, 3)):
+        j = r.randrange(len(names))
+        txns.append(dict(txns[j], amount=r.randint(1, 8000) / 4.0, description='again %d' % j,
+                         date='2025-%02d-%02d' % (r.randint(1, 12), r.randint(1, 28))))
+    return {'txns': txns, 'views': VIEWS if views else None, 'currency': '${amount}', 'sources': ['Amex'], 'year': 2025,
+            'id_family': list(names)}
+
+
+def id_cases(r, quick):
+    """the id-allocation stream: (a) every ordered triple (thorough: also every ordered 4-subset) of a fixed part of the closure
+    of a base name, (b) random families of 3–8 names, with and without views"""
+    import itertools
+    out = []
+    bases = [r.choice(ID_BASES)] if quick else ID_BASES[:3] + [r.choice(ID_BASES[3:])]
+    for b in bases:
+        u = id_universe(b)
+        for t in itertools.permutations(u[:6] if quick else u[:8], 3):
+            out.append(id_case(r, list(t)))
+        if not quick:
+            for t in itertools.permutations(u[:7], 4):
+                out.append(id_case(r, list(t)))
+        out.append(id_case(r, u, views=True))
+        out.append(id_case(r, u[::-1]))
+    for _ in range(90 if quick else 4000):
+        out.append(id_case(r, id_family(r, r.randint(3, 8)), views=r.random() < 0.25))
+    return out
+
+
+def natural_id_clash(names):
+    """does a name's natural id equal `<natural id shared by two other names>_<n>`?  (measure only; uses base_id)"""
+    ids = [base_id(n) for n in names]
+    shared = {i for i in ids if ids.count(i) > 1}
+    return any(re.fullmatch(re.escape(b) + r'_[0-9]+', i) for b in shared for i in ids)
 
 
 def adv_string(r, lone=False, maxparts=4):
@@ -127,9 +212,11 @@ def gen_txn(r, merchants, adversarial, lone, amount_mode, date_fields):
 def gen_case(r, profile=None):
     """profile: dict of switches; None = draw them."""
     p = {'adversarial': r.random() < 0.6, 'lone': r.random() < 0.1, 'collide': r.random() < 0.2, 'views': r.random() < 0.4,
-         'date_fields': r.random() < 0.12, 'amount_mode': r.choice(['mixed', 'mixed', 'mixed', 'neg', 'zero', 'pos'])}
+         'date_fields': r.random() < 0.12, 'amount_mode': r.choice(['mixed', 'mixed', 'mixed', 'neg', 'zero', 'pos']),
+         'family': r.random() < 0.12}
     if profile:
         p.update(profile)
+    must = []
     merchants = [r.choice(WORDS) for _ in range(r.randint(1, 4))]
     if p['adversarial']:
         merchants += [adv_string(r, p['lone'], 3) for _ in range(r.randint(1, 3))]
@@ -139,13 +226,16 @@ def gen_case(r, profile=None):
         if r.random() < 0.3:
             base = adv_string(r, False, 2)
             merchants += [base + " o'x y", base + ' ox_y']
+    if p['family']:
+        must = id_family(r, r.randint(3, 6))
+        merchants += must
     merchants = list(dict.fromkeys(merchants))
     n = r.choice([1, 2, 3, 5, 8, 13, 20])
     txns = [gen_txn(r, merchants, p['adversarial'], p['lone'], p['amount_mode'], p['date_fields']) for _ in range(n)]
-    if p['collide']:
-        for m in merchants[-2:]:   # colliding names must actually occur
+    if p['collide'] or must:
+        for m in (must or merchants[-2:]):   # colliding names must actually occur
             t = gen_txn(r, [m], p['adversarial'], p['lone'], p['amount_mode'], p['date_fields'])
-            txns.append(t)
+            txns.insert(r.randint(0, len(txns)), t) if must else txns.append(t)
     return {'txns': txns, 'views': VIEWS if p['views'] else None, 'currency': r.choice(CURRENCIES),
             'sources': [adv_string(r, False, 2)] if p['adversarial'] else ['Amex'], 'year': r.choice([2024, 2025])}
 
@@ -954,6 +1044,69 @@ def correspondence(ctx, impl, cases, r):
             'splice_cases': len(idx), 'splice_cases_where_order_matters': rescans, 'category_view_cases': ncv}
 
 
+def observed_ids(data):
+    """displayName -> set of ids under which the real report lists it (category view and every view)"""
+    seen = {}
+    for c in (data.get('categoryView') or {}).values():
+        for sc in (c.get('subcategories') or {}).values():
+            for mid, m in (sc.get('merchants') or {}).items():
+                seen.setdefault(m.get('displayName'), set()).update({mid, m.get('id')})
+    for sec in (data.get('sections') or {}).values():
+        for mid, m in (sec.get('merchants') or {}).items():
+            seen.setdefault(m.get('displayName'), set()).update({mid, m.get('id')})
+    return seen
+
+
+def alloc_correspondence(ctx, impl, idc, tdir):
+    """the allocation table (Model.allocIds, theorems merchant_ids_unique / category_view_sums_unique_ids) against the ids the
+    real write_summary_file_vue hands out: same name → same id, for every name of the family, and the category view built on
+    the model's ids keeps the same ids and per-category sums as the real one."""
+    drv = common.Driver()
+    reqs, metas, bad = [], [], []
+    for case in idc:
+        try:
+            stats = impl.analyse(case)
+            text, dumps, d = impl.html(stats, case, embedded=True, template_dir=tdir)
+            shutil.rmtree(d, ignore_errors=True)
+            data = json.loads(dumps[-1])
+        except Exception as e:
+            bad.append({'case': case, 'error': type(e).__name__})
+            continue
+        bm = stats['by_merchant']
+        if not all(is_scalar(n) and is_scalar((d.get('category') or '') + (d.get('subcategory') or '')) for n, d in bm.items()):
+            continue
+        # order of the make_merchant_id calls: the views (in order, non-empty ones), then by_merchant
+        order = [n for sec in (stats.get('sections') or {}).values() for n, _ in sec.get('merchants', [])] + list(bm)
+        distinct = list(dict.fromkeys(order))
+        rows = []
+        for n in distinct:
+            dd = bm[n]
+            cat = dd.get('category') or 'Uncategorized'
+            cat = 'Uncategorized' if cat == 'Unknown' else cat
+            rows.append({'id': [], 'cat': cps(cat), 'sub': [], 'ytd': int(round(dd['total'] * 100)), 'count': dd['count']})
+        reqs.append({'op': 'report', 'fn': 'alloc', 'names': [cps(n) for n in order], 'rows': rows})
+        metas.append((case, order, data))
+    outs = drv.batch(reqs)
+    nnames = 0
+    for (case, order, data), m in zip(metas, outs):
+        table = {uncps(k): uncps(v) for k, v in m['table']}
+        nnames += len(table)
+        obs = observed_ids(data)
+        model = {k: {v} for k, v in table.items()}
+        kept = sorted(mid for c in data['categoryView'].values() for sc in c['subcategories'].values() for mid in sc['merchants'])
+        sums = {c: int(round(v['total'] * 100)) for c, v in data['categoryView'].items()}
+        # the category view iterates by_merchant; its dict order after the views differs from the table's, compare as sets / maps
+        if obs != model:
+            bad.append({'names_in_call_order': order, 'model': table, 'implementation': {k: sorted(map(str, v)) for k, v in obs.items()}})
+        elif not m['distinct'] or sorted(uncps(k) for k in m['kept']) != kept or {uncps(k): v for k, v in m['sums']} != sums \
+                or m['total'] != m['analysed']:
+            bad.append({'names_in_call_order': order, 'model_kept': sorted(uncps(k) for k in m['kept']), 'implementation_kept': kept,
+                        'model_sums': {uncps(k): v for k, v in m['sums']}, 'implementation_sums': sums})
+    ctx.obligation('correspondence:make_merchant_id(table observed in write_summary_file_vue)-vs-allocIds+categoryView', 'correspondence',
+                   not bad and len(metas) > 0, cases=len(metas), error=json.dumps(bad[0], default=str)[:1500] if bad else None)
+    return {'id_alloc_tables': len(metas), 'id_alloc_names': nnames}
+
+
 # ------------------------------------------------------------------ verdict
 
 REQUIRED = ('every format x verbosity renders without exception; income / spending / credits / transfers / cash flow parsed back from '
@@ -1037,15 +1190,33 @@ def run(ctx):
             trig['views'] += bool(c.get('views'))
             trig['lone_surrogate'] += any(not is_scalar(t['description'] + t['merchant']) for t in c['txns'])
             trig['all_nonpositive'] += all(t['amount'] <= 0 for t in c['txns'])
+        # ---- id-allocation stream: adversarial merchant-name families (all ordered small subsets + random families)
+        idc = id_cases(r, ctx.quick)
+        idstat = {'cases': len(idc), 'with_views': 0, 'natural_id_shared_by_two_names': 0,
+                  'natural_id_equals_generated_id_of_another_name': 0, 'distinct_name_sets': set()}
+        for c in idc:
+            fails, info = run_case(impl, c, light=True)
+            prop_fail.extend(fails)
+            renders += info['renders']
+            names = c['id_family']
+            idstat['with_views'] += bool(c.get('views'))
+            idstat['natural_id_shared_by_two_names'] += len({base_id(x) for x in names}) < len(names)
+            idstat['natural_id_equals_generated_id_of_another_name'] += bool(natural_id_clash(names))
+            idstat['distinct_name_sets'].add(tuple(sorted(names)))
+            if info.get('html_checked'):
+                nontriv.add(json.dumps(c, sort_keys=True))
+        idstat['distinct_name_sets'] = len(idstat['distinct_name_sets'])
         try:
             corr = correspondence(ctx, impl, cases[:120 if ctx.quick else 3000], r)
+            step = max(1, len(idc) // (120 if ctx.quick else 2500))
+            corr.update(alloc_correspondence(ctx, impl, idc[::step], os.path.join(impl.tmp, 'tpl-id')))
         except Exception as e:
             corr = {'error': repr(e)[:500]}
             ctx.obligation('correspondence:driver', 'correspondence', False, error=repr(e)[:800])
-        ctx.cov['evaluations'] = len(cases)
+        ctx.cov['evaluations'] = len(cases) + len(idc)
         ctx.cov['traces_validated_against_impl'] = sum(v for k, v in corr.items() if isinstance(v, int) and k in
                                                        ('strings', 'ids_observed', 'damaged_literals', 'script_end_compared_with_html.parser',
-                                                        'splice_cases', 'category_view_cases'))
+                                                        'splice_cases', 'category_view_cases', 'id_alloc_tables'))
         ctx.cov['distinct_nontrivial'] = len(nontriv)
         ctx.cov['rule'] = ('generated transaction lists (1–22 txns; amounts k/4 so that float sums are exact; adversarial descriptions / merchant '
                            'names / tags / sources / extra fields: script end tags in several spellings, quotes, backslashes, the three template '
@@ -1053,9 +1224,19 @@ def run(ctx):
                            'families that differ only in quotes / spaces / underscores; all-negative and all-zero totals; with and without views; '
                            'date-valued extra fields) → analyze_transactions → print_summary ×2, print_sections_summary, export_markdown ×3, '
                            'export_json ×3, write_summary_file_vue ×2; non-trivial = adversarial character in a description or merchant name, '
-                           'at least two merchants, and the HTML was produced and decoded')
+                           'at least two merchants, and the HTML was produced and decoded.  PLUS the id-allocation stream '
+                           '(%d cases, %d distinct name sets, %d where a name\'s natural id equals the `<base>_<n>` id generated for another '
+                           'name, %d with views): merchant-name families = closure of a base name under the preimages of the id '
+                           'normalisation (quotes inserted, space<->underscore) and under `_n` / ` n` suffixing, incl. chains (A, A\', '
+                           'A 2, A_2, A\' 2, A_2_2, …) and near misses (_1, _02, trailing _); every ordered triple (thorough: and ordered '
+                           '4-subset) of a 6–8 name part of the closure, and random families of 3–8 names in random order → all formats '
+                           '(light) + HTML decoded: every merchant exactly once, transactions equal, sums conserved; every such case '
+                           'counts as non-trivial when the HTML was decoded'
+                           % (idstat['cases'], idstat['distinct_name_sets'], idstat['natural_id_equals_generated_id_of_another_name'],
+                              idstat['with_views']))
         ctx.notes['renders'] = renders
         ctx.notes['input_classes'] = trig
+        ctx.notes['id_allocation_stream'] = idstat
         ctx.notes['correspondence'] = corr
         for lab, c in labelled[:3]:
             ctx.sample({'witness': lab, 'txns': c['txns'][:2]})
@@ -1065,7 +1246,7 @@ def run(ctx):
         def search():
             out = []
             for i in range(1500 if ctx.quick else 6000):
-                c = gen_case(r, {'adversarial': True})
+                c = gen_case(r, {'adversarial': True, 'family': i % 3 == 0})
                 fails, _ = run_case(impl, c, light=True)
                 out.extend(fails)
                 if len({f['class'] for f in out}) >= 4:
@@ -1075,7 +1256,8 @@ def run(ctx):
 
         conclude(ctx, prop_fail, search)
         return ctx.finish(extra_trusted=[
-            'hand model Model/Report.lean of json.dumps string escaping, json.loads scanstring, str.replace, make_merchant_id, build_category_view '
+            'hand model Model/Report.lean of json.dumps string escaping, json.loads scanstring, str.replace, make_merchant_id (natural id and '
+            'the memoised allocation table), build_category_view '
             'and the export_json summary, tied by differential correspondence only (no translator)',
             'strings are lists of Unicode scalar values in the model; lone surrogates are exercised on the implementation only',
             'scriptDataEnds follows the HTML standard; html.parser (CPython 3.12: </\\s*script\\s*>) is compared with it on the texts where the two '
